@@ -6,6 +6,10 @@
 mod driver;
 mod env;
 mod registry;
+mod sc_entropy;
+mod courier;
+mod sc_pok;
+mod sc_sign;
 mod sc_thresh;
 
 use driver::*;
@@ -280,6 +284,7 @@ fn main() {
         Some("check") if args.len() >= 4 => cmd_check(&args[2], tier_of(&args[3]), args.iter().any(|a| a == "--child")),
         Some("replay") if args.len() >= 3 => cmd_replay(&args[2]),
         Some("digest") if args.len() >= 5 => cmd_digest(&args[2], tier_of(&args[3]), args[4].parse().unwrap_or(1)),
+        Some("entropy-child") if args.len() >= 7 => sc_entropy::child_main(&args[2..]),
         Some("selftest") => {
             let (c, e) = kernel::seams::self_test();
             println!("seams clock={} entropy={} profile={}", c, e, env::env().profile);
